@@ -14,6 +14,8 @@ package mempool
 //   "real": testConfig=false, the pool reads a real state.ChainStateDB (memory db); block
 //           notifications carry real state roots, parent hashes and transactions (exercises
 //           setStateDB and the dirty-account path).
+// Pair schedules (deterministic concurrency, verif_mempool_pairs_test.go): for ordered pairs of calls of the graph the
+// harness holds the pool lock until both calls are queued at it; the outcome must be one of the two sequential ones.
 // Concurrent part (direction B): goroutines issue put / block arrival / get / removeTx / evict /
 // exist / getUnconfirmed on one pool; call start and end are stamped with a global atomic
 // sequence number; the log is validated by TLC against MempoolTrace.tla (linearizability search
@@ -113,6 +115,8 @@ type mpInput struct {
 	Graphs   []aGraph   `json:"graphs"`
 	Backends []string   `json:"backends"`
 	Conc     concParams `json:"conc"`
+	Pairs    []pairCase `json:"pairs"` // lock-gated pair schedules (verif_mempool_pairs_test.go)
+	SkipSeq  bool       `json:"skip_seq"` // graphs are given for the pairs only (no sequential replay in this invocation)
 }
 
 func (t aTx) String() string { return fmt.Sprintf("%s/%d/%d", t.Acc, t.Nonce, t.Amt) }
@@ -938,6 +942,9 @@ func TestVerifMempool(t *testing.T) {
 	}
 	for gi := range in.Graphs {
 		g := &in.Graphs[gi]
+		if in.SkipSeq {
+			break
+		}
 		for _, b := range in.Backends {
 			for ti := range g.Trans {
 				if !replayable(b, g.Trans[ti].A) {
@@ -959,7 +966,12 @@ func TestVerifMempool(t *testing.T) {
 		res.Note("transitions replayed %s: %d", k, atomic.LoadInt64(v))
 	}
 
-	// ---------------- concurrent
+	// ---------------- concurrent, deterministic: lock-gated pair schedules derived from the graphs
+	if len(in.Pairs) > 0 && res.NumViolations() == 0 {
+		runPairs(t, res, &in, envs)
+	}
+
+	// ---------------- concurrent, randomized
 	if in.Conc.Runs > 0 && res.NumViolations() == 0 {
 		runConcurrent(t, res, in.Conc)
 	}
